@@ -376,43 +376,63 @@ func checkHint(w *World, res *TaskResult) (clause, detail string) {
 	if !equalStrings(hintKeys, live) {
 		return "hint-keys-vs-live", fmt.Sprintf("hinted keys %q, keys live at merge time %q", shortKeys(hintKeys), shortKeys(live))
 	}
-	// (iii) differential open on a copy: hint path (adopting Open) vs scan path (next Open)
-	cp := NewWorld(w.Cfg, w.Keys)
-	defer cp.Destroy()
-	// the source is still open: its files are complete (Standard I/O appends; MMap files carry a hole)
-	if err := copyDirGo(w.Dir, cp.Dir); err != nil {
-		return "", ""
-	}
-	os.Remove(filepath.Join(cp.Dir, ".lock"))
-	if err := copyDirGo(mdir, cp.Dir+"-merge"); err != nil {
-		return "", ""
-	}
+	// (iii) differential open on copies: hint path (the adopting Open) vs scan path (the hint file removed, every
+	// file read record by record) - under the writer's configuration and under a much smaller and a much larger
+	// DataFileSize (positions in the hint are those of files written under ANOTHER limit then)
 	if w.Cfg.IO == 1 {
 		// an open MMap source has 512 MiB files whose logical end is not recoverable from outside:
 		// the differential open is done for Standard I/O (C14 compares the back-ends)
 		return "", ""
 	}
-	if err := cp.Open(); err != nil {
-		return "hint-open-fails", "Open adopting the merge (hint path): " + panicDetail(err)
+	readers := []Cfg{w.Cfg}
+	for _, fs := range []int64{16, 1 << 20} {
+		rc := w.Cfg
+		rc.FileSize = fs
+		readers = append(readers, rc)
 	}
-	d1, ix1 := cp.DumpDB(), indexString(cp)
-	if err := cp.Close(); err != nil {
-		return "", ""
-	}
-	if err := cp.Open(); err != nil {
-		return "scan-open-fails", "second Open (scan path): " + panicDetail(err)
-	}
-	d2, ix2 := cp.DumpDB(), indexString(cp)
-	cp.Close()
-	res.Evals++
-	if !dumpEqual(d1, d2) {
-		return "hint-vs-scan-dump", fmt.Sprintf("hint-path Open: %s\nscan-path Open: %s", d1, d2)
-	}
-	if ix1 != ix2 {
-		return "hint-vs-scan-index", fmt.Sprintf("index after the hint-path Open:\n %s\nindex after the scan-path Open:\n %s", ix1, ix2)
-	}
-	if !sameMap(d1.KV, w.Model) {
-		return "hint-vs-model", fmt.Sprintf("hint-path Open: %s\nmodel: %s", d1, modelString(w.Model))
+	for _, rc := range readers {
+		cp := NewWorld(rc, w.Keys)
+		c, d := func() (string, string) {
+			defer cp.Destroy()
+			// the source is still open: its files are complete (Standard I/O appends)
+			if err := copyDirGo(w.Dir, cp.Dir); err != nil {
+				return "", ""
+			}
+			os.Remove(filepath.Join(cp.Dir, ".lock"))
+			if err := copyDirGo(mdir, cp.Dir+"-merge"); err != nil {
+				return "", ""
+			}
+			if err := cp.Open(); err != nil {
+				return "hint-open-fails", "Open adopting the merge (hint path): " + panicDetail(err)
+			}
+			d1, ix1 := cp.DumpDB(), indexString(cp)
+			if err := cp.Close(); err != nil {
+				return "", ""
+			}
+			hints, _ := filepath.Glob(filepath.Join(cp.Dir, "*"+datafile.HintFileSuffix))
+			for _, h := range hints {
+				os.Remove(h)
+			}
+			if err := cp.Open(); err != nil {
+				return "scan-open-fails", "second Open (hint file removed: scan path): " + panicDetail(err)
+			}
+			d2, ix2 := cp.DumpDB(), indexString(cp)
+			cp.Close()
+			res.Evals++
+			if !dumpEqual(d1, d2) {
+				return "hint-vs-scan-dump", fmt.Sprintf("hint-path Open: %s\nscan-path Open: %s", d1, d2)
+			}
+			if ix1 != ix2 {
+				return "hint-vs-scan-index", fmt.Sprintf("index after the hint-path Open:\n %s\nindex after the scan-path Open:\n %s", ix1, ix2)
+			}
+			if !sameMap(d1.KV, w.Model) {
+				return "hint-vs-model", fmt.Sprintf("hint-path Open: %s\nmodel: %s", d1, modelString(w.Model))
+			}
+			return "", ""
+		}()
+		if c != "" {
+			return c, fmt.Sprintf("copy opened with DataFileSize %d (written with %d): %s", rc.FileSize, w.Cfg.FileSize, d)
+		}
 	}
 	return "", ""
 }
@@ -439,6 +459,19 @@ func indexString(w *World) string {
 // long keys: two of them make the hint file span more than one 32 KiB block (a hint record that starts in
 // one block and ends in the next forces the reader to reuse its block buffer while earlier keys are live)
 var c18LongKeys = []string{"K" + string(patternBytes(19999, 21)), "L" + string(patternBytes(19999, 22)), "m"}
+
+// very long keys: a hint record longer than one chunk payload (32 761 bytes) is itself written as several chunks
+var c18VeryLongKeys = []string{"V" + string(patternBytes(40000, 23)), "W" + string(patternBytes(70000, 24)), "m"}
+
+func c18VeryLongAlphabet(c Cfg) []Op {
+	return []Op{
+		{K: "put", Key: c18VeryLongKeys[0], VC: "S"},
+		{K: "put", Key: c18VeryLongKeys[1], VC: "S"},
+		{K: "put", Key: c18VeryLongKeys[2], VC: "S"},
+		{K: "del", Key: c18VeryLongKeys[1], Dev: true},
+		{K: "restart", Dev: true},
+	}
+}
 
 func c18LongAlphabet(c Cfg) []Op {
 	return []Op{
@@ -621,10 +654,17 @@ func init() {
 				lc.FileSize = 30000 // one long-key record per file
 				longCfgs = append(longCfgs, lc)
 			}
+			var veryLongCfgs []Cfg
+			for _, fs := range []int64{50000, 1 << 20} {
+				vc := defaultCfg
+				vc.FileSize = fs // 50000: every very-long-key record alone in its file (several merge output files)
+				veryLongCfgs = append(veryLongCfgs, vc)
+			}
 			return seqTasks("C18", []seqLevel{
 				{Name: fmt.Sprintf("d%db%d", d, b), Cfgs: cfgs, Keys: c18Keys, Alpha: c18Alphabet, Depth: d, Dev: b, Run: runC18},
 				{Name: "many-files-d4", Cfgs: []Cfg{manyFilesCfg()}, Keys: keysAB, Alpha: manyFilesAlphabet, Depth: 4, Dev: 4, Run: runC18},
 				{Name: "long-keys-d4", Cfgs: longCfgs, Keys: c18LongKeys, Alpha: c18LongAlphabet, Depth: 4, Dev: 2, Run: runC18},
+				{Name: "very-long-keys-d4", Cfgs: veryLongCfgs, Keys: c18VeryLongKeys, Alpha: c18VeryLongAlphabet, Depth: 4, Dev: 2, Run: runC18},
 			})
 		},
 		Bounds: func(tier string) map[string]any {
